@@ -21,6 +21,8 @@ HEADER_LINES = [
 def max_allele(gts):
     m = 0
     for g in gts:
+        if g == "NOGT":
+            continue
         for a in re.split(r"[/|]", g):
             if a.isdigit() and len(a) < 4:
                 m = max(m, int(a))
@@ -41,7 +43,12 @@ def render_vcf(cols, records, extra_fields=False, contigs=None, positions=None, 
         pos = positions[i] if positions else i + 1
         m = max_allele(gts)
         alt = ",".join(alts[:m]) if m > 0 else "."
-        if extra_fields and i % 2 == 0:
+        if gts and all(g == "NOGT" for g in gts):
+            # a record whose FORMAT has no GT key at all: no sample has a genotype
+            fmt = "DP"
+            samples = [str(10 + j) for j in range(len(gts))]
+            info = "."
+        elif extra_fields and i % 2 == 0:
             fmt = "GT:DP:GQ"
             # a sample whose GT is the missing value: the whole sample as '.', or (dot_fields) '.' next to the other values
             samples = [g + ":%d:%d" % (10 + j, 30 + j) if (g != "." or dot_fields) else "." for j, g in enumerate(gts)]
@@ -62,7 +69,7 @@ def render_vcf(cols, records, extra_fields=False, contigs=None, positions=None, 
 
 
 def model_records(records):
-    return ";".join(",".join(r) for r in records) if records else "-"
+    return ";".join(",".join("." if g == "NOGT" else g for g in r) for r in records) if records else "-"
 
 
 def model_samples(samples):
@@ -99,12 +106,26 @@ def cli_project_arg(project):
 BGZF_EOF = bytes.fromhex("1f8b08040000000000ff0600424302001b0003000000000000000000")
 
 
+BGZF_HEADER_FIELDS = {"mtime": 0, "xfl": 0, "os": 0xff}     # what htslib writes; any values are legal gzip / BGZF
+
+
 def bgzf_block(data, level=6):
     co = zlib.compressobj(level, zlib.DEFLATED, -15)
     cdata = co.compress(data) + co.flush()
     bsize = len(cdata) + 25
-    hdr = struct.pack("<BBBBIBBHBBHH", 0x1f, 0x8b, 8, 4, 0, 0, 0xff, 6, 0x42, 0x43, 2, bsize)
+    h = BGZF_HEADER_FIELDS
+    hdr = struct.pack("<BBBBIBBHBBHH", 0x1f, 0x8b, 8, 4, h["mtime"], h["xfl"], h["os"], 6, 0x42, 0x43, 2, bsize)
     return hdr + cdata + struct.pack("<II", zlib.crc32(data) & 0xffffffff, len(data) & 0xffffffff)
+
+
+def bgzf_compress_hdr(data, mtime=0, xfl=0, os_=0xff, **kw):
+    """bgzf_compress with other (legal) values in the gzip header fields MTIME, XFL, OS of every block"""
+    old = dict(BGZF_HEADER_FIELDS)
+    BGZF_HEADER_FIELDS.update({"mtime": mtime, "xfl": xfl, "os": os_})
+    try:
+        return bgzf_compress(data, **kw)
+    finally:
+        BGZF_HEADER_FIELDS.update(old)
 
 
 def bgzf_compress(data, sizes=None, eof=True, empty_every=0, empty_first=False, first_stored_max=False):
